@@ -105,6 +105,13 @@ impl BlockCache {
 		}
 	}
 
+	/// Drops every cached entry. Entries are keyed by table / value-log file id:
+	/// after a restore the ids of the discarded timeline are handed out again,
+	/// so whatever is cached under them no longer matches the files.
+	pub(crate) fn clear(&self) {
+		self.data.clear();
+	}
+
 	/// Inserts a data block into the cache.
 	pub(crate) fn insert_data_block(&self, table_id: u64, offset: u64, block: Arc<Block>) {
 		self.data.insert((KIND_DATA, table_id, offset).into(), Item::Data(block));
